@@ -11,6 +11,13 @@ PROP = dict(
           "strings over {space,+,-,0,1,8,f,x,e,.}; float literals over {1,5,.,e,-,+,space,0} plus inf/nan/hex-float specials; every "
           "subset of read handles before assert_none_unused for all lists of <= 3 (quick) / 4 (thorough) tokens) plus rapidcheck-generated "
           "token lists from a richer grammar, command lines with mixed quoting, numerals and float literals with garbage. "
+          "Bytes: command lines range over all 255 non-NUL byte values - every byte value 1..255 is enumerated at the start, in the middle and at the end of a word, "
+          "of an option name and of an option value (8 token lists x 2 separator styles), standing unquoted and unescaped unless the shell itself treats it specially "
+          "(the 'raw' quoting style, also drawn at random per token segment), and generated tokens include words over any byte, over 0x80..0xFF only and well-formed UTF-8; "
+          "the reference tokeniser treats space and tab as the only blanks. Padded numerals: a numeral stays complete (and its value the same) behind any run of the blanks "
+          "strtoull skips and any run of leading zeros - 13 values (0, 1, 7, 93, tops of the widths) x 4 renderings behind every run of 0..200 zeros / spaces / tabs / newlines / "
+          "mixed blanks / blanks+zeros are enumerated (sign, type, format, getter form rotating), random numerals get runs of up to 200 blanks (1 in 10) and up to 200 zeros (1 in 12), "
+          "random float literals likewise. "
           "seq: sequences of getter calls on ONE object (what a getter answers is a function of the token list and the getter alone, so each call "
           "must answer as on a fresh object): every ordered pair of {10 getter forms: get_multi<string/int32/double>, get<string> with/without flag, "
           "get<bool>, get<int32>/get<double> with/without default} x {every supplied name, 3 names not supplied, every positional index up to 2 "
